@@ -40,6 +40,7 @@ func runC03(p *load.Program, r *oblig.Report) {
 	// FetchMessage (shared with C02.R7)
 	c02ReaderAs(p, r, "C03.R10 records of the current generation are delivered, older ones dropped")
 	c03CoordinatorLookup(p, r)
+	c03ReadMessageKeeps(p, r)
 }
 
 // c03CoordinatorLookup: the coordinator of a group can move at any time; a member that keeps talking to the old one
@@ -771,4 +772,53 @@ func c03Readers(p *load.Program, r *oblig.Report) {
 		}
 	})
 	r.Check(okSub, rule, "kafka.(*Reader).run subscribes to the new generation's assignments", p.Pos(run.Pos()), "r.subscribe(gen.Assignments) with gen from cg.Next", "not recognised")
+}
+
+// c03ReadMessageKeeps: a message taken from the queue by ReadMessage reaches the caller on every path, also when
+// the commit that follows fails: dropping it while the position has already moved lets the next (successful) commit
+// cover a record the application never saw.
+func c03ReadMessageKeeps(p *load.Program, r *oblig.Report) {
+	const rule = "C03.R12 ReadMessage never drops the record it fetched"
+	fn := p.Func("", "(*Reader).ReadMessage")
+	if fn == nil {
+		r.Lost(rule, "kafka.(*Reader).ReadMessage")
+		return
+	}
+	var fetch *ssa.Call
+	an.EachInstr(fn, func(ins ssa.Instruction) {
+		if c, ok := ins.(*ssa.Call); ok && calleeNamed(&c.Call, "Reader", "FetchMessage") {
+			fetch = c
+		}
+	})
+	if fetch == nil {
+		r.Lost(rule, "FetchMessage call in kafka.(*Reader).ReadMessage")
+		return
+	}
+	var okBlk *ssa.BasicBlock
+	for _, b := range an.Blocks(fn) {
+		_, ci := an.IfCond(b)
+		if e := ci.Edge(token.EQL); e >= 0 && an.IsNilConst(ci.Y) {
+			if ex, isEx := an.Unwrap(ci.X).(*ssa.Extract); isEx && ex.Tuple == ssa.Value(fetch) && ex.Index == 1 {
+				okBlk = b.Succs[e]
+			}
+		}
+	}
+	if okBlk == nil {
+		r.Lost(rule, "error test of FetchMessage in kafka.(*Reader).ReadMessage")
+		return
+	}
+	n := 0
+	var bad []string
+	an.EachInstr(fn, func(ins ssa.Instruction) {
+		ret, ok := ins.(*ssa.Return)
+		if !ok || ret.Parent() != fn || len(ret.Results) != 2 || len(okBlk.Instrs) == 0 || !an.Dominates(okBlk.Instrs[0], ret) {
+			return
+		}
+		n++
+		if ex, isEx := an.RetVal(ret, 0).(*ssa.Extract); !isEx || ex.Tuple != ssa.Value(fetch) || ex.Index != 0 {
+			bad = append(bad, "the return at "+p.Pos(ret.Pos())+" hands out "+clean(an.Shape(an.RetVal(ret, 0))))
+		}
+	})
+	r.Check(n > 0 && len(bad) == 0, rule, "kafka.(*Reader).ReadMessage returns the fetched message on every path after FetchMessage succeeded", p.Pos(fn.Pos()),
+		"return m, err (the message also accompanies a commit error)", strings.Join(bad, "; "))
 }
